@@ -116,6 +116,25 @@ PROPS = {
                    'a Lean theorem. Trusted: Lean kernel, standard axioms, harness, Go regexp.',
         technique='Lean 4 proof (partition and offset theorems by induction) + model/implementation correspondence with spec oracle',
     ),
+    'C11': dict(
+        areas=[('ansi', 20000, 3000000)],
+        rule='two streams: (a) arbitrary bytes assembled from fragments of escape syntax (ESC, CSI/OSC openers and terminators, '
+             'parameter bytes, BS, SO/SI, newlines, multi-byte and invalid UTF-8), with and without a carried-over state; '
+             '(b) grammar-generated interleavings of text with SGR operations (16/256/24-bit colours with ; and : separators, '
+             'attributes on/off, resets, combined parameters), OSC-8 hyperlinks, other CSI sequences, two-byte ESC, SO, '
+             'backspace pairs; non-trivial = a stream with >= 2 characters and >= 3 operations, or bytes containing ESC; '
+             'distinct = distinct case lines',
+        trusted=['the regular expression quoted in ansi.go (with leftmost-first semantics) as the definition of an escape sequence',
+                 'utf8.DecodeRune / DecodeLastRune (modelled Go-faithfully)'],
+        level_text='Lean 4 theorems: text without control characters is returned untouched for every carried-over state and the '
+                   'scanner finds no sequence in it; the abstract colouring gives one cell per character; colour arithmetic stays '
+                   'in int32. The scanner, extractColor and interpretCode are compared with the model on both streams; an '
+                   'independent matcher for the documented regular expression decides what must be stripped, spans are checked '
+                   'for well-formedness, and an abstract pen interpreter decides the colour of every character.',
+        level_note='Partial: scanner = documented regex and SGR refinement for ALL inputs are checked per case, not yet theorems. '
+                   'Fixed while building: F16 (colour lost before a trailing non-colour sequence).',
+        technique='Lean 4 proof (plain text invariance by induction over the scanner) + correspondence with a regex-semantics oracle and an abstract colouring oracle',
+    ),
     'C12': dict(
         areas=[('quote', 1500, 150000)],
         rule='strings built from every shell metacharacter, quotes, backslashes, newlines, blanks, globs, `$()`, backticks, '
